@@ -49,8 +49,11 @@ def run(ctx):
     nloops = 0
     # scan direction: occurrences are chosen in ONE left-to-right pass (for self-overlapping patterns a pass from the right
     # picks different occurrences: "aaa"/"aa" -> "ab" instead of "ba")
+    from .common import fx
+    g = fx(ctx, "replace_from_back")
+    ctx.fixture("R17.2", "replace_from_back", g is not None and bool(_backward(g)), True, "backward search primitive recognised")
     for f in split + repl:
-        back = [n for _, _, e in f.roots() for n in walk(e["expr"]) if n.get("k") == "call" and short(n.get("name") or "") in ("rfind", "find_last_of", "find_last_not_of", "find_end", "rbegin", "crbegin")]
+        back = _backward(f)
         if back:
             ctx.bad("R17.2", f, "scans-left-to-right", "%s searches from the right (%s): when occurrences of the pattern overlap, a different set of occurrences is chosen than by the single "
                     "left-to-right pass the law describes" % (short(f.qual), ", ".join(sorted({fmt(n)[:50] for n in back}))), (f, back[0].get("ln")))
@@ -256,3 +259,7 @@ def run(ctx):
             ctx.broken("R17.4", f, "prefix-idiom", "starts_with is %s: not one of the recognised position-0 idioms" % r, f)
     ctx.assume("the split/join inverse law, piece counts and the full output equations are statements about runtime strings: not decided")
     ctx.trust("p = s.find(x, from): p == npos or from <= p (Appendix D.2)")
+
+
+def _backward(f):
+    return [n for _, _, e in f.roots() for n in walk(e["expr"]) if n.get("k") == "call" and short(n.get("name") or "") in ("rfind", "find_last_of", "find_last_not_of", "find_end", "rbegin", "crbegin")]
